@@ -569,7 +569,7 @@ package table
 //@   at-call path.GetLocalKey() requires bgp.IsAddPathEnabled(false, path.GetFamily(), options)
 
 // the same for AGGREGATOR: once its AS is held as a 4-octet number the attribute is 8 octets long
-//@ props C11
+//@ props C11 C14
 //@ spec wfAgg(a bgp.PathAttributeInterface) bool = typeOf(a) == (*bgp.PathAttributeAggregator) && a.(*bgp.PathAttributeAggregator) != nil && a.(*bgp.PathAttributeAggregator).Value.Askind == reflect.Uint32 ==> a.(*bgp.PathAttributeAggregator).Length == 8
 //@ func UpdatePathAggregator4ByteAs
 //@   address-quant
@@ -580,6 +580,9 @@ package table
 //@   loop 0 invariant forall k int :: 0 <= k && k < len(msg.PathAttributes) ==> wfAgg(msg.PathAttributes[k])
 //@   loop 0 invariant aggAttr != nil ==> aggAttr.Value.Askind == reflect.Uint32 && aggAttr.Length == 8
 //@   at-return requires aggAttr != nil ==> aggAttr.Value.Askind == reflect.Uint32 && aggAttr.Length == 8
+// from C14 (RFC 6793 4.2.3): AS4_AGGREGATOR stands in for an AGGREGATOR that carries AS_TRANS; an AGGREGATOR with a
+// real AS number is left as received
+//@   at-return requires aggAttr != nil && agg4Attr != nil && old(aggAttr.Value.AS) != bgp.AS_TRANS ==> aggAttr.Value.AS == old(aggAttr.Value.AS)
 
 // =============================================================================================
 // C14 — the 2-octet/4-octet AS transition: reconstruction from AS_PATH + AS4_PATH
@@ -606,9 +609,14 @@ package table
 //@   loop 3 invariant asLen >= 0
 //@   loop 4 invariant as4Len >= 0
 //@   loop 5 invariant keepNum >= 0 && keepNum + as4Len <= asLen
-//@   loop 5 step keepNum >= 1 && header(keepNum) - keepNum == segASLen(param)
+//@   loop 5 invariant len(newParams) == __iter + 1 && __iter + 1 <= len(asParams)
+//@   loop 5 step keepNum >= 0 && header(keepNum) - keepNum <= segASLen(param) && (keepNum > 0 ==> header(keepNum) - keepNum == segASLen(param))
 //@   at-call param.GetAS()[:keepNum] requires keepNum >= 1 && segType(param) == bgp.BGP_ASPATH_ATTR_TYPE_SEQ && keepNum < segLen(param)
 //@   at-call bgp.NewPathAttributeAsPath(newIntfParams) requires as4Len <= asLen
+// "loses nothing": AS4_PATH stands for the trailing hops of AS_PATH; where the take-over from AS_PATH stops, the
+// next AS_PATH segment is one that counts hops - a confederation segment (never carried in AS4_PATH) standing at
+// the cut is taken over, not dropped
+//@   loop 6 invariant pre(len(newParams) < len(asParams) ==> segASLen(asParams[len(newParams)]) > 0)
 // "never produces an empty or over-long segment", for the segments the merge loop builds: the overflow of a merged
 // AS_SEQUENCE has at least one member and its first part exactly 255; a plain merge has at most 255
 //@   at-call ^bgp.NewAs4PathParam(paramType, paramAS[255-len(lastParamAS):]) requires len(arg1) >= 1
@@ -620,6 +628,9 @@ package table
 // confederation segments are never copied into it.
 //@ func UpdatePathAttrs2ByteAs
 //@   claims inv-init inv-keep step at-call at-return
+// an AS4_PATH that is sent has at least one segment (RFC 6793 6: shorter than 6 octets is malformed) - a member
+// above 65535 inside a confederation segment alone does not make one, confederation segments are not copied
+//@   at-call bgp.NewPathAttributeAs4Path(as4Params) requires len(as4Params) > 0
 //@   loop 1 invariant len(as2Params) == __iter + 1 && __iter + 1 <= len(asAttr.Value)
 //@   loop 1 step (segType == bgp.BGP_ASPATH_ATTR_TYPE_CONFED_SEQ || segType == bgp.BGP_ASPATH_ATTR_TYPE_CONFED_SET) ==> len(as4Params) == header(len(as4Params))
 //@   loop 1 step header(mkAs4) ==> mkAs4
@@ -633,7 +644,8 @@ package table
 //@   at-call bgp.NewPathAttributeAsPath(as2Params) requires len(as2Params) == len(asAttr.Value)
 //@   at-call bgp.NewPathAttributeAs4Path(as4Params) requires mkAs4
 //@   at-return requires asAttr != nil && !mkAs4 ==> len(msg.PathAttributes) == len(ps)
-//@   at-return requires asAttr != nil && mkAs4 ==> len(msg.PathAttributes) == len(ps) + 1
+//@   at-return requires asAttr != nil && mkAs4 && len(as4Params) > 0 ==> len(msg.PathAttributes) == len(ps) + 1
+//@   at-return requires asAttr != nil && len(as4Params) == 0 ==> len(msg.PathAttributes) == len(ps)
 
 // =============================================================================================
 // C12 - graceful restart: what the Adj-RIB-In sweep at End-of-RIB / timer expiry withdraws
